@@ -33,6 +33,10 @@ type Options struct {
 	Copy bool
 	// MapRange routes range-over-map through simrt.MapKeys (R7).
 	MapRange bool
+	// Channels routes channel types and operations through verif/simchan:
+	// `chan T` -> *simchan.Chan[T], make/send/receive/close/len/cap/range and
+	// select statements -> calls.
+	Channels bool
 	// YieldCall / YieldImport override the yield call (default simrt.Yield from
 	// verif/simrt), e.g. "synyield.Point" from "verif/synyield".
 	YieldCall   string
@@ -55,6 +59,7 @@ type Stats struct {
 	Copies         int
 	MapRanges      int
 	MapRangesLeft  int // map ranges left native (unsupported shape)
+	ChanOps        int
 	ImportsSwapped int
 }
 
@@ -128,6 +133,8 @@ type rewriter struct {
 	siteBase int
 	needRT   bool
 	needYI   bool
+	needCh   bool
+	skip     map[ast.Node]bool
 	tmp      int
 }
 
@@ -176,6 +183,12 @@ func (r *rewriter) run() error {
 		}
 		return true
 	})
+	if r.opt.Channels {
+		r.skip = map[ast.Node]bool{}
+		if e := r.channels(); e != nil {
+			return e
+		}
+	}
 	ast.Inspect(r.file, func(n ast.Node) bool {
 		if err != nil {
 			return false
@@ -251,6 +264,9 @@ func (r *rewriter) run() error {
 	if r.needRT {
 		// add the simrt import right after the package clause, on the same line
 		r.insert(r.file.Name.End(), `; import simrt "verif/simrt"`, 0)
+	}
+	if r.needCh {
+		r.insert(r.file.Name.End(), `; import simchan "verif/simchan"`, 2)
 	}
 	if r.needYI {
 		name := r.opt.YieldCall[:strings.Index(r.opt.YieldCall, ".")]
@@ -419,4 +435,233 @@ func (r *rewriter) apply() []byte {
 	}
 	out = append(out, r.src[at:]...)
 	return out
+}
+
+// ---- channels -------------------------------------------------------------------------
+
+func (r *rewriter) isChan(e ast.Expr) bool {
+	t := r.info.TypeOf(e)
+	if t == nil {
+		return false
+	}
+	_, ok := t.Underlying().(*types.Chan)
+	return ok
+}
+
+func (r *rewriter) chanErr(n ast.Node, what string) error {
+	return fmt.Errorf("channel construct not supported by the rewriter at %v: %s", r.fset.Position(n.Pos()), what)
+}
+
+// channels emits the edits for every channel construct of the file.
+func (r *rewriter) channels() error {
+	var err error
+	// parents, for the two-value receive
+	recv2 := map[*ast.UnaryExpr]bool{}
+	ast.Inspect(r.file, func(n ast.Node) bool {
+		switch n := n.(type) {
+		case *ast.AssignStmt:
+			if len(n.Lhs) == 2 && len(n.Rhs) == 1 {
+				if u, ok := n.Rhs[0].(*ast.UnaryExpr); ok && u.Op == token.ARROW {
+					recv2[u] = true
+				}
+			}
+		case *ast.ValueSpec:
+			if len(n.Names) == 2 && len(n.Values) == 1 {
+				if u, ok := n.Values[0].(*ast.UnaryExpr); ok && u.Op == token.ARROW {
+					recv2[u] = true
+				}
+			}
+		}
+		return true
+	})
+	selN := 0
+	ast.Inspect(r.file, func(n ast.Node) bool {
+		if err != nil || n == nil {
+			return false
+		}
+		if r.skip[n] {
+			return false
+		}
+		switch n := n.(type) {
+		case *ast.SelectStmt:
+			selN++
+			err = r.selectStmt(n, selN)
+			// bodies are still visited; the comm statements were marked skip
+		case *ast.CallExpr:
+			if id, ok := n.Fun.(*ast.Ident); ok {
+				if _, isB := r.info.Uses[id].(*types.Builtin); isB {
+					switch {
+					case id.Name == "make" && len(n.Args) >= 1:
+						if ct, ok := n.Args[0].(*ast.ChanType); ok {
+							r.needCh = true
+							r.st.ChanOps++
+							r.skip[ct] = true
+							r.replace(n.Fun.Pos(), ct.Value.Pos(), "simchan.Make[")
+							if len(n.Args) >= 2 {
+								r.replace(ct.Value.End(), n.Args[1].Pos(), "](")
+							} else {
+								r.replace(ct.Value.End(), n.Rparen, "](0")
+							}
+							// still visit the element type (nested chan types) and the size
+							ast.Inspect(ct.Value, func(m ast.Node) bool { return r.chanTypeVisit(m) })
+						}
+					case (id.Name == "close" || id.Name == "len" || id.Name == "cap") && len(n.Args) == 1 && r.isChan(n.Args[0]):
+						r.needCh = true
+						r.st.ChanOps++
+						m := map[string]string{"close": ".Close()", "len": ".Len()", "cap": ".Cap()"}[id.Name]
+						r.replace(n.Fun.Pos(), n.Args[0].Pos(), "(")
+						r.replace(n.Args[0].End(), n.Rparen+1, ")"+m)
+					}
+				}
+			}
+		case *ast.ChanType:
+			r.chanTypeVisit(n)
+		case *ast.SendStmt:
+			r.needCh = true
+			r.st.ChanOps++
+			r.replace(n.Chan.End(), n.Value.Pos(), ".Send(")
+			r.insert(n.Value.End(), ")", 1000000-int(n.Pos()))
+		case *ast.UnaryExpr:
+			if n.Op == token.ARROW {
+				r.needCh = true
+				r.st.ChanOps++
+				r.replace(n.OpPos, n.X.Pos(), "(")
+				// closers of inner nodes (larger start position) must come first
+				if recv2[n] {
+					r.insert(n.X.End(), ").Recv2()", 1000000-int(n.Pos()))
+				} else {
+					r.insert(n.X.End(), ").Recv()", 1000000-int(n.Pos()))
+				}
+			}
+		case *ast.RangeStmt:
+			if r.isChan(n.X) {
+				r.needCh = true
+				r.st.ChanOps++
+				r.tmp++
+				k := "_"
+				if n.Key != nil {
+					id, ok := n.Key.(*ast.Ident)
+					if !ok || n.Tok != token.DEFINE {
+						err = r.chanErr(n, "range over a channel with a non-identifier or assigned variable")
+						return false
+					}
+					k = id.Name
+				}
+				if n.Value != nil {
+					err = r.chanErr(n, "range over a channel with two variables")
+					return false
+				}
+				x := r.text(n.X.Pos(), n.X.End())
+				r.replace(n.For, n.Body.Lbrace+1, fmt.Sprintf("for { %s, _vok%d := (%s).Recv2(); if !_vok%d { break }; _ = %s;", k, r.tmp, x, r.tmp, map[bool]string{true: "0", false: k}[k == "_"]))
+				r.skip[n.X] = true
+			}
+		}
+		return true
+	})
+	return err
+}
+
+func (r *rewriter) chanTypeVisit(n ast.Node) bool {
+	ct, ok := n.(*ast.ChanType)
+	if !ok || r.skip[ct] {
+		return true
+	}
+	r.needCh = true
+	r.skip[ct] = true
+	r.replace(ct.Begin, ct.Value.Pos(), "*simchan.Chan[")
+	r.insert(ct.Value.End(), "]", 1)
+	ast.Inspect(ct.Value, func(m ast.Node) bool { return r.chanTypeVisit(m) })
+	return false
+}
+
+// selectStmt rewrites one select statement into a simchan.Select + switch.
+func (r *rewriter) selectStmt(s *ast.SelectStmt, n int) error {
+	r.needCh = true
+	r.st.ChanOps++
+	sel := fmt.Sprintf("_vsel%d", n)
+	var pre strings.Builder
+	fmt.Fprintf(&pre, "{ %s := simchan.NewSelect(); ", sel)
+	hasDefault := false
+	idx := 0
+	nested := func(e ast.Expr) bool {
+		bad := false
+		ast.Inspect(e, func(m ast.Node) bool {
+			switch m := m.(type) {
+			case *ast.UnaryExpr:
+				if m.Op == token.ARROW {
+					bad = true
+				}
+			case *ast.FuncLit:
+				bad = true
+			}
+			return !bad
+		})
+		return bad
+	}
+	for _, cl := range s.Body.List {
+		cc := cl.(*ast.CommClause)
+		if cc.Comm == nil {
+			hasDefault = true
+			r.replace(cc.Case, cc.Colon+1, "default:")
+			continue
+		}
+		r.skip[cc.Comm] = true
+		var bind string
+		switch c := cc.Comm.(type) {
+		case *ast.SendStmt:
+			if nested(c.Chan) || nested(c.Value) {
+				return r.chanErr(c, "nested channel operation inside a select case")
+			}
+			fmt.Fprintf(&pre, "simchan.OnSend(%s, %s, %s); ", sel, r.text(c.Chan.Pos(), c.Chan.End()), r.text(c.Value.Pos(), c.Value.End()))
+		case *ast.ExprStmt:
+			u, ok := c.X.(*ast.UnaryExpr)
+			if !ok || u.Op != token.ARROW || nested(u.X) {
+				return r.chanErr(c, "unexpected select case")
+			}
+			fmt.Fprintf(&pre, "simchan.OnRecv(%s, %s); ", sel, r.text(u.X.Pos(), u.X.End()))
+		case *ast.AssignStmt:
+			if len(c.Rhs) != 1 {
+				return r.chanErr(c, "unexpected select case")
+			}
+			u, ok := c.Rhs[0].(*ast.UnaryExpr)
+			if !ok || u.Op != token.ARROW || nested(u.X) {
+				return r.chanErr(c, "unexpected select case")
+			}
+			cv := fmt.Sprintf("%sc%d", sel, idx)
+			fmt.Fprintf(&pre, "%s := simchan.OnRecv(%s, %s); ", cv, sel, r.text(u.X.Pos(), u.X.End()))
+			op := c.Tok.String()
+			lhs0 := r.text(c.Lhs[0].Pos(), c.Lhs[0].End())
+			if len(c.Lhs) == 2 {
+				lhs1 := r.text(c.Lhs[1].Pos(), c.Lhs[1].End())
+				bind = fmt.Sprintf(" %s, %s %s %s.Val(), %s.Ok();", lhs0, lhs1, op, cv, cv)
+				if c.Tok == token.DEFINE {
+					bind += fmt.Sprintf(" _, _ = %s, %s;", blankIfUnderscore(lhs0), blankIfUnderscore(lhs1))
+				}
+			} else {
+				bind = fmt.Sprintf(" %s %s %s.Val();", lhs0, op, cv)
+				if c.Tok == token.DEFINE {
+					bind += fmt.Sprintf(" _ = %s;", blankIfUnderscore(lhs0))
+				}
+			}
+		default:
+			return r.chanErr(c, "unexpected select case")
+		}
+		r.replace(cc.Case, cc.Colon+1, fmt.Sprintf("case %d:%s", idx, bind))
+		idx++
+	}
+	fmt.Fprintf(&pre, "switch %s.Wait(%v) {", sel, hasDefault)
+	r.replace(s.Select, s.Body.Lbrace+1, pre.String())
+	if !hasDefault {
+		// keeps the statement "terminating" in Go's sense when every case returns
+		r.insert(s.Body.Rbrace, "default: panic(\"simchan: impossible select index\"); ", 8)
+	}
+	r.insert(s.Body.Rbrace+1, " }", 9)
+	return nil
+}
+
+func blankIfUnderscore(s string) string {
+	if s == "_" {
+		return "0"
+	}
+	return s
 }
